@@ -186,7 +186,7 @@ def solve_spec(d, ty):
     return 0, float(-res.fun), res.x
 
 
-def solve_rows(rows):
+def solve_rows(rows, want_duals=False):
     """re-solve the rows captured from the code's own PuLP model (maximise slot 25 = the objective variable, all
     variables >= 0) with HiGHS.  -> (status, optimum).  Used to tell a CBC precision gap from a wrong formulation."""
     idx = {}
@@ -194,7 +194,7 @@ def solve_rows(rows):
         for sl, m, _c in terms:
             idx.setdefault((sl, m), len(idx))
     if (25, 0) not in idx:
-        return 9, None
+        return (9, None, None) if want_duals else (9, None)
     nv = len(idx)
     A_ub, b_ub, A_eq, b_eq = [], [], [], []
     for sense, rhs, terms in rows:
@@ -218,5 +218,20 @@ def solve_rows(rows):
                   A_eq=mat(A_eq) if A_eq else None, b_eq=np.array(b_eq) if A_eq else None,
                   bounds=[(0.0, None)] * nv, method="highs")
     if res.status != 0:
-        return res.status, None
-    return 0, float(-res.fun)
+        return (res.status, None, None) if want_duals else (res.status, None)
+    if not want_duals:
+        return 0, float(-res.fun)
+    # multipliers of the MAXIMISATION problem, one per captured row, in captured order:
+    #   Le rows y >= 0, Ge rows y <= 0, Eq rows free  (HiGHS reports sensitivities of the minimised -Obj)
+    y = []
+    ie = iu = 0
+    em = res.eqlin.marginals if A_eq else []
+    um = res.ineqlin.marginals if A_ub else []
+    for sense, _rhs, _terms in rows:
+        if sense == 0:
+            y.append(float(-em[ie])); ie += 1
+        elif sense < 0:
+            y.append(float(-um[iu])); iu += 1
+        else:
+            y.append(float(um[iu])); iu += 1
+    return 0, float(-res.fun), y
